@@ -65,11 +65,15 @@ type Config struct {
 }
 
 func DefaultDialer() *uacp.Dialer {
+	// Every dialer gets its own copy of the default handshake parameters:
+	// the buffer and limit options write through ClientACK, and must not
+	// change uacp.DefaultClientACK or the dialers of other clients.
+	ack := *uacp.DefaultClientACK
 	return &uacp.Dialer{
 		Dialer: &net.Dialer{
 			Timeout: DefaultDialTimeout,
 		},
-		ClientACK: uacp.DefaultClientACK,
+		ClientACK: &ack,
 	}
 }
 
